@@ -79,6 +79,20 @@ def rules(ctx, tier):
                 "%s can mutate the key map and is externally reachable, but is not one of the logged entry points" % b.path)
     r.need(4, "state privacy + the mutating roots")
     out.append(r.finish())
+
+    # a put of any content must be able to publish: the directory layout the publish step relies on (pre-created or
+    # created on demand, as remembered in the settings) is never undone by another operation
+    from . import c19
+    shared = dict((x.rid, x) for x in c19.rules(ctx, tier))
+    x = shared.get("R6")
+    if x is not None:
+        x.rid = "R7"
+        x.title = "a put can always publish: no operation removes or renames a directory under cas/ (shared with C19-R6)"
+        x.scenario = ("a remove deletes the emptied shard directory; with a pre-created tree the next put of content hashing "
+                      "into it fails with NotFound: a put that the map semantics say succeeds returns an error")
+        for o in x.obs:
+            o.scenario = x.scenario
+        out.append(x)
     return out
 
 
@@ -103,6 +117,13 @@ def ack_applied(ctx, r, must, root):
             if cs:
                 S |= set(cs[1])
             M |= set(ctx.may.site_events(site))
+            rts = prog.ty_str(root.locals[0])
+            if rts.startswith(("std::result::Result<usize", "std::result::Result<u64", "std::result::Result<bool")):
+                # the whole Result is forwarded from a callee: what it reports is what the callee returns on Ok
+                from ..prov import expand_down
+                dsl = Slicer(ctx.world, root, skip_err=True)
+                val = expand_down(ctx.world, root, dsl.leaves_of_place(site.term["dest"]))
+                val = set(x for x in val if not (x[0] == "call" and (x[1] or "").endswith("from_residual")))
         else:
             for s in root.stmts(bb):
                 if s["k"] == "assign" and s["lhs"]["l"] == 0 and s["rv"]["k"] == "agg" and s["rv"]["ops"]:
@@ -163,12 +184,63 @@ def ack_applied(ctx, r, must, root):
                         "to the remove op" % root.path,
                         "%s reports a count that is not the length of the list it removes (handed: %s, collected from "
                         "the index: %s)" % (root.path, handed, collected), where)
+            elif ("usize" in prog.ty_str(root.locals[0]) or "u64" in prog.ty_str(root.locals[0])) and \
+                    counter_in_apply_body(ctx, r, root, val, where):
+                pass
             elif "usize" in prog.ty_str(root.locals[0]) or "u64" in prog.ty_str(root.locals[0]):
                 r.bad("reported:%s:count" % root.path.split("::")[-1], root,
                       "%s reports a count with origins %s at %s (expected: the length of the key list handed to the "
                       "remove op)" % (root.path, sorted(fmt_leaf(l) for l in val), where), where)
     r.check(n >= 1, "exits:%s" % root.path.split("::")[-1], root, "%d Ok exit(s) of %s judged" % (n, root.path),
             "no Ok exit found in %s" % root.path)
+
+
+def counter_in_apply_body(ctx, r, root, val, where):
+    """The reported count is a local counter of the apply body (plus constants): judged by path enumeration - on
+    every Ok path it is advanced exactly once per mapping removed.  Returns False if the value is something else."""
+    from .. import balance
+    from ..prov import root_local
+    prog = ctx.prog
+    roles = ctx.role_bodies()
+    locs = {}
+    for l in val:
+        if l[0] == "const":
+            continue
+        if l[0] == "binop" and isinstance(l[2], tuple) and l[2][0] in roles and l[1].startswith("Add"):
+            ab_body = prog.bodies[l[2][0]]
+            for (lhs, op, a, bo) in balance.binops_in(ab_body, l[2][1]):
+                c = root_local(ab_body, a)
+                if op.startswith("Add") and isinstance(c, int):
+                    locs.setdefault(l[2][0], set()).add(c)
+            continue
+        return False
+    if not locs:
+        return False
+    for p, cs in sorted(locs.items()):
+        b = prog.bodies[p]
+        ab = balance.ApplyBody(ctx, b)
+        ab.count_locals = cs
+        seen = set()
+        n = 0
+        for kind, st in ab.paths(unroll=1 if getattr(ctx, "tier", "quick") == "quick" else 2):
+            if kind != "return":
+                continue
+            js = balance.judge_path(ab, st)
+            if js is None:
+                continue
+            for (ok, construct, msg) in js:
+                if construct != "count" or (ok, msg) in seen:
+                    continue
+                seen.add((ok, msg))
+                n += 1
+                r.check(ok, "reported:%s:count" % root.path.split("::")[-1], b,
+                        "%s reports a counter of %s; %s" % (root.path.split("::")[-1], p.split("::")[-1], msg),
+                        "%s reports a counter kept by %s, but on %s: the count is not the number of keys removed" % (
+                            root.path, p, msg.replace("path [", "path [")), "%s:%d" % (b.file, b.line))
+        if n == 0:
+            r.bad("reported:%s:count" % root.path.split("::")[-1], b,
+                  "%s reports a counter of %s that no enumerated Ok path advances" % (root.path, p), where)
+    return True
 
 
 def derives_from(ctx, body, sl, op, pred, depth=0):
